@@ -355,9 +355,10 @@ unit({
         {'file': 'src/Sprite/PaletteHeader.cpp', 'qual': 'TagHeader', 'ctype': 'Tag', 'cname': 'TagHeader'},
         {'file': 'src/Sprite/PaletteHeader.cpp', 'qual': 'TagData', 'ctype': 'Tag', 'cname': 'TagData'},
     ],
-    'scoped': {'TilesetHeader': 'TilesetHeader', 'PpalHeader': 'PpalHeader', 'Tileset': '', 'PaletteHeader': 'PaletteHeader', 'ImageHeader': 'ImageHeader'},
+    'scoped': {'TilesetHeader': 'TilesetHeader', 'PpalHeader': 'PpalHeader', 'Tileset': '', 'PaletteHeader': 'PaletteHeader', 'ImageHeader': 'ImageHeader', 'ScanLineOrientation': 'ScanLineOrientation'},
     'throwing_calls': ('throwReadError',),
     'default_ctors': {'SectionHeader': 'SectionHeader_ctor0', 'PaletteHeader': 'PaletteHeader_ctor'},
+    'ctor_calls': {'SectionHeader': {'fn': 'SectionHeader_ctor2', 'throws': False}},
     'calls': dict(BMP_CALLS, **{
         'SectionHeader': {2: N('SectionHeader_make', recv='none'), 1: N('SectionHeader_copy', recv='none')},
         'CalculatePixelHeaderLength': N('Tileset_CalculatePixelHeaderLength', recv='none'),
@@ -379,6 +380,16 @@ unit({
         _fn(TL, 'CalculatePbmpSectionSize', 'Tileset_CalculatePbmpSectionSize', ordinal=0),
         _fn(TL, 'CalculatePixelHeaderLength', 'Tileset_CalculatePixelHeaderLength', ordinal=0),
         _fn(TL, 'ValidateTileset', 'Tileset_ValidateTileset', ordinal=0),
+        _fn(TL, 'PeekIsCustomTileset', 'Tileset_PeekIsCustomTileset', ordinal=1, typemap={'Stream::BidirectionalReader': 'Rd'},
+            calls={'Peek': {1: T('Rd_PeekTag', args=['obj'])}, 'Read': {1: T('Rd_Read', args=['obj'])}, 'SeekBeginning': T('Rd_SeekBeginning')}),
+        _fn(TL, 'SwapPaletteRedAndBlue', 'Tileset_SwapPaletteRedAndBlue', ordinal=0, rangefor={'color': 'Color'}, views=[(r'\(\*palette\)', 'vec')]),
+        _fn(TL, 'WriteCustomTileset', 'Tileset_WriteCustomTileset', ordinal=0,
+            calls={'ValidateTileset': T('Tileset_ValidateTileset', recv='none', args=['ref']), 'GetScanLineOrientation': N('BitmapFile_GetScanLineOrientation'), 'InvertScanLines': N('BitmapFile_InvertScanLines'),
+                   'AbsoluteHeight': N('BitmapFile_AbsoluteHeight'), 'CalculatePbmpSectionSize': N('Tileset_CalculatePbmpSectionSize', recv='none'),
+                   'Create': [(r'TilesetHeader', T('TilesetHeader_Create', recv='none')), (r'PpalHeader', N('PpalHeader_Create', recv='none'))],
+                   'SwapPaletteRedAndBlue': N('Tileset_SwapPaletteRedAndBlue', recv='none', args=['ref']),
+                   'Write': {1: [(r'tileset\.(palette|pixels)', T('Wr_Write', args=['vec'])), (r'.*', T('Wr_Write', args=['obj']))]}},
+            views=[(r'tileset\.palette', 'vec'), (r'tileset\.pixels', 'vec')]),
         _fn('src/Sprite/PaletteHeader.cpp', 'PaletteHeader::PaletteHeader', 'PaletteHeader_ctor', cls='PaletteHeader', ctor=True),
         _fn('src/Sprite/PaletteHeader.cpp', 'PaletteHeader::CreatePaletteHeader', 'PaletteHeader_CreatePaletteHeader', cls='PaletteHeader', static=True,
             calls={'PaletteHeader': N('PaletteHeader_default', recv='none')}),
